@@ -10,6 +10,7 @@ import (
 	goahttp "goa.design/goa/v3/http"
 	"goa.design/goa/v3/security"
 	alt "vdesign/gen/alt"
+	both "vdesign/gen/both"
 	alts "vdesign/gen/http/alt/server"
 )
 
@@ -68,4 +69,45 @@ func VerifC06_s3_same_header() {
 		verifAssert("same-header:second-alternative-gets-the-bare-credential", s.at == cred)
 	}
 	verifAssert("same-header:method-runs-iff-an-alternative-accepts", (s.ran == 1) == (s.jwtOK || s.oauthOK))
+}
+
+type bothSvc struct {
+	basicOK, jwtOK       bool
+	basicCalls, jwtCalls int
+	user, pass, token    string
+	scopes               []string
+	ran                  int
+}
+
+func (s *bothSvc) BasicAuth(ctx context.Context, user, pass string, sc *security.BasicScheme) (context.Context, error) {
+	s.basicCalls++
+	s.user, s.pass = user, pass
+	if !s.basicOK {
+		return ctx, errors.New("basic refused")
+	}
+	return ctx, nil
+}
+func (s *bothSvc) JWTAuth(ctx context.Context, token string, sc *security.JWTScheme) (context.Context, error) {
+	s.jwtCalls++
+	s.token, s.scopes = token, sc.RequiredScopes
+	if !s.jwtOK {
+		return ctx, errors.New("jwt refused")
+	}
+	return ctx, nil
+}
+func (s *bothSvc) Guarded(context.Context, *both.GuardedPayload) error { s.ran++; return nil }
+
+// VerifC06_s3_service_over_api: the API declares Security(basic), the service
+// Security(basic, jwt with a scope); a method that declares nothing inherits
+// the service-level requirement, not the API-level one.
+func VerifC06_s3_service_over_api() {
+	s := &bothSvc{basicOK: nondetBool("basic-ok"), jwtOK: nondetBool("jwt-ok")}
+	ep := both.NewEndpoints(s).Guarded
+	tok := nondetStringUpTo("token", 1)
+	_, err := ep(context.Background(), &both.GuardedPayload{User: "u", Pass: "p", Token: tok})
+	verifAssert("service-over-api:method-runs-iff-both-schemes-accept", (s.ran == 1) == (s.basicOK && s.jwtOK) && (err == nil) == (s.ran == 1))
+	verifAssert("service-over-api:basic-consulted", s.basicCalls == 1 && s.user == "u" && s.pass == "p")
+	if s.basicOK {
+		verifAssert("service-over-api:jwt-consulted-with-its-scope", s.jwtCalls == 1 && s.token == tok && len(s.scopes) == 1 && s.scopes[0] == "api:read")
+	}
 }
